@@ -204,6 +204,29 @@ def _check(ctx, run, flags=(), label="default"):
         # (the per-handler rule above covers handlers whose try block calls SetJmp directly; when the phase runners were
         # moved into helpers the folded scenarios of R1/R2 are what decides the handlers)
     guarded(run, r2)
+    # which of the two behaviours Utest::run shows is the process-wide rethrow option: the runner sets it to exactly what the command
+    # line says - also back to "off" when an earlier run in the same process had switched it on
+    init = prog.fn("CommandLineTestRunner::initializeTestRun")
+    run.analysed(init)
+    for want, before in ((0, 1), (1, 0), (0, 0), (1, 1)):
+        cell = {"v": before}
+        hooks = {"UtestShell::setRethrowExceptions": lambda *a_: (cell.__setitem__("v", int(bool(a_[-1]))), 0)[1], "UtestShell::isRethrowingExceptions": lambda *a_: cell["v"],
+                 "CommandLineArguments::getGroupFilters": lambda *a_: 81, "CommandLineArguments::getNameFilters": lambda *a_: 82}
+        for g_ in prog.methods_of("CommandLineArguments"):
+            if g_.ret in ("bool", "_Bool") and not g_.params and g_.kind == "method":
+                hooks[g_.qn] = (lambda *a_, nm=g_.name: want if nm == "isRethrowingExceptions" else 0)
+        for g_ in prog.functions.values():
+            if g_.qn.startswith(("TestRegistry::set", "TestOutput::verbose", "TestOutput::color", "UtestShell::setCrashOnFail")):
+                hooks.setdefault(g_.qn, lambda *a_: 0)
+        ev = Evaluator(prog, init, env={"registry_": 11, "arguments_": 22, "output_": 33}, calls=hooks)
+        ev.pass_object = True
+        ev.optional_stubs = set(hooks)
+        try:
+            ev.run_blocks(init.entry, max_steps=600)
+        except Unknown as u:
+            raise AnalysisBroken("C01.R2: initializeTestRun cannot be folded%s: %s" % (sfx, u))
+        run.ob("R2", "initializeTestRun folded [command line says rethrow=%d, option was %d]: the option is what the command line says%s" % (want, before, sfx), init.site, cell["v"] == want, witness={"option after": cell["v"]},
+               what="" if cell["v"] == want else "the rethrow option is %d after the run was set up with rethrow=%d: an unexpected exception %s" % (cell["v"], want, "escapes the runner (no teardown, no summary)" if cell["v"] else "is swallowed although -e asked for it to propagate"))
 
     # ---------------- R3 ----------------------------------------------------
     # the recording chain folded against recording stubs: failWith = record, then leave through the terminator; each layer records
